@@ -96,13 +96,14 @@ func (s *Store) AddMessage(message storage.Message) (id string, err error) {
 			}
 		}
 	})
-	s.enforcerDeliver(m)
-
-	// Update size accounting and emit delete events for messages evicted by the cap.
+	// Update size accounting and emit delete events for messages evicted by the cap.  This
+	// happens before the new message is reported, so the size enforcer never counts both and
+	// evicts more than necessary.
 	for _, old := range evicted {
 		s.enforcerRemove(old)
 		s.emitDeleted(old)
 	}
+	s.enforcerDeliver(m)
 	return id, err
 }
 
